@@ -2,6 +2,7 @@
 package main
 
 import (
+	"runtime/pprof"
 	"encoding/json"
 	"flag"
 	"fmt"
@@ -18,7 +19,7 @@ func main() {
 	pkg := flag.String("pkg", ".", "package pattern")
 	hdir := flag.String("harness-dir", "", "directory with zz_verif_*.go harness files to overlay into the package")
 	harness := flag.String("harness", "", "comma-separated harness function names")
-	solver := flag.String("solver", "z3", "z3 | z3-new | cvc5")
+	solver := flag.String("solver", "z3-new", "z3 | z3-new | cvc5")
 	workers := flag.Int("workers", 8, "parallel workers")
 	timeout := flag.Int("qtimeout", 20000, "per-query timeout (ms)")
 	maxPaths := flag.Int("max-paths", 0, "stop after this many paths (0 = none)")
@@ -29,7 +30,13 @@ func main() {
 	trace := flag.Bool("trace", false, "trace instructions")
 	slog := flag.String("solver-log", "", "write worker 0's SMT-LIB dialogue here")
 	modfile := flag.String("modfile", "", "alternate go.mod (keeps /repo untouched)")
+	cpuprof := flag.String("cpuprofile", "", "write CPU profile")
 	flag.Parse()
+	if *cpuprof != "" {
+		f, _ := os.Create(*cpuprof)
+		pprof.StartCPUProfile(f)
+		defer pprof.StopCPUProfile()
+	}
 
 	overlay := map[string][]byte{}
 	if *hdir != "" {
@@ -82,5 +89,6 @@ func main() {
 		b, _ := json.MarshalIndent(reports, "", " ")
 		os.WriteFile(*out, b, 0o644)
 	}
+	pprof.StopCPUProfile()
 	os.Exit(code)
 }
